@@ -1305,6 +1305,11 @@ def denote_text(text):
                     continue
                 ci = len(L["cells"])
                 C = {"name": _name(cell[1]), "view": None, "ports": [], "insts": [], "cables": []}
+                # sibling names are unique in the data model: an original name already taken by an earlier
+                # cell of the library falls back to the identifier (synth_th1_slaac.edf has
+                # (rename placedLFSR__1_ "placedLFSR") after a cell placedLFSR); same for instances
+                if any(x["name"][0] == C["name"][0] for x in L["cells"]):
+                    C["name"] = [C["name"][1], C["name"][1]]
                 ports = []
                 insts = []
                 for v in cell[2:]:
@@ -1342,6 +1347,8 @@ def denote_text(text):
                                                 want = cr[2][1].lower()
                                                 lidx = li if want == libs[li][0] else [a for a, _ in libs].index(want)
                                             ref = [lidx, libs[lidx][1].index(cr[1].lower())]
+                                    if any(x["name"][0] == nm[0] for x in C["insts"]):
+                                        nm = [nm[1], nm[1]]
                                     C["insts"].append({"name": nm, "ref": ref})
                                     insts.append((nm[1].lower(), ref))
                                 elif _kw(y) == "net":
